@@ -214,6 +214,23 @@ inline void hand_written(std::vector<Built>& out) {
     { Dot11BlockAck b(MAC1, MAC2); b.bar_control(3); b.start_sequence(55); b.bitmap(pattern(8).data()); addc(out, "dot11 blockack", b); }
     addc(out, "dot11 control", Dot11Control(MAC1));
     addc(out, "dot11 base", Dot11(MAC1));
+    // ---- ICMP / ICMPv6 errors with an extension structure quoting a CHAIN of layers (header_size != size of the quoted datagram)
+    for (int n : {0, 3, 40, 99, 100, 101, 120}) {
+        ICMP c(ICMP::TIME_EXCEEDED); ICMPExtension e(1, 1); e.payload(pattern(4, 0x31)); c.extensions().add_extension(e);
+        addc(out, "ip/icmp ttl+ext/ip/udp/raw(" + std::to_string(n) + ")", ip4() / c / IP("10.0.0.2", "10.0.0.1") / UDP(53, 1000) / RawPDU(pattern(n, 0x32)));
+        ICMPv6 c6(ICMPv6::TIME_EXCEEDED); c6.extensions().add_extension(e);
+        addc(out, "ipv6/icmpv6 ttl+ext/ipv6/udp/raw(" + std::to_string(n) + ")", ip6() / c6 / ip6() / UDP(53, 1000) / RawPDU(pattern(n, 0x33)));
+    }
+    { ICMP c(ICMP::DEST_UNREACHABLE); ICMPExtension e(2, 3); e.payload(pattern(8, 0x34)); c.extensions().add_extension(e);
+      addc(out, "eth/ip/icmp unreach+ext/ip/tcp/raw", eth() / ip4() / c / IP("10.0.0.2", "10.0.0.1") / TCP(80, 1000) / RawPDU(pattern(9, 0x35))); }
+    // ---- MLDv2 report whose records carry auxiliary data of every size 0..9 (counted in 32-bit words), last record odd-sized
+    for (int n = 0; n < 10; ++n) {
+        ICMPv6 c(ICMPv6::MLD2_REPORT); ICMPv6::multicast_address_records_list l;
+        ICMPv6::multicast_address_record r; r.type = 2; r.multicast_address = "ff02::16"; r.aux_data = pattern(8, 0x36); l.push_back(r);
+        r.type = 1; r.sources.push_back("2001:db8::5"); r.aux_data = pattern(n, 0x37); l.push_back(r);
+        c.multicast_address_records(l);
+        addc(out, "eth/ipv6/icmpv6 mld2 report[aux " + std::to_string(n) + "]/raw", eth() / ip6() / c / RawPDU(pattern(6, 0x38)));
+    }
     // ---- large options / tags / records: length fields near and past one-octet limits
     { ICMPv6 c(ICMPv6::ROUTER_SOLICIT); c.source_link_layer_addr(MAC1); Bytes big = pattern(262, 0x21); c.add_option(ICMPv6::option(253, big.begin(), big.end())); c.mtu(ICMPv6::mtu_type(0, 1280));
       addc(out, "eth/ipv6/icmpv6 rs[slla,opt264,mtu]", eth() / ip6() / c); }
